@@ -1,324 +1,17 @@
-import VaxisModel.Lemmas.EdLangTF
-import VaxisModel.Model.EdGen
-import VaxisModel.Lemmas.EditorCl
+import VaxisModel.Lemmas.EdLangTFReset
+import VaxisModel.Lemmas.EdLangTFCursorTo
+import VaxisModel.Lemmas.EdLangTFDelRight
+import VaxisModel.Lemmas.EdLangTFDelLeft
+import VaxisModel.Lemmas.EdLangTFKill
+import VaxisModel.Lemmas.EdLangTFInsert
+import VaxisModel.Lemmas.EdLangTFCheck
 
-/-!
-C17 — proofs that the bodies of the TextField's functions, translated from the source on every run
-(`Gen/EditorLang.lean`) and run by the interpreter of `Model/EdLang.lean`, are the hand-written
-model `Model/TextFieldCl.lean`.  The statements are restated in `Props/C17Body.lean`.
--/
+/-! C17 — `TextField.HandleEvent` as translated from the source is the model's `handleKey`; histories through the translated bodies. -/
 namespace VaxisModel.Lemmas.EdLangTFBody
 open VaxisModel.Model.EdLang VaxisModel.Model.EdRun VaxisModel.Gen.EditorLang VaxisModel.Lemmas.EdLangTF VaxisModel.Model.EdGen
 open VaxisModel.Model
 
-@[simp] theorem genTf_handleEvent : genTf.handleEvent = tfHandleEvent := rfl
-@[simp] theorem genTf_checkChanged : genTf.checkChanged = tfCheckChanged := rfl
-@[simp] theorem genTf_reset : genTf.reset = tfReset := rfl
-@[simp] theorem genTf_insertString : genTf.insertString = tfInsertStringAtCursor := rfl
-@[simp] theorem genTf_cursorTo : genTf.cursorTo = tfCursorTo := rfl
-@[simp] theorem genTf_delRight : genTf.delRight = tfDeleteCharRightOfCursor := rfl
-@[simp] theorem genTf_delLeft : genTf.delLeft = tfDeleteCharLeftOfCursor := rfl
-@[simp] theorem genTf_kill : genTf.kill = tfDeleteCursorToEndOfLine := rfl
-@[simp] theorem genTf_insertLoop : genTf.insertLoop = tfInsertLoop := rfl
-@[simp] theorem genTf_count : genTf.count = tfGraphemeCount := rfl
-
 variable {A : Type} [DecidableEq A]
-
-/-- `graphemeCountInString`: the translated loop counts the clusters. -/
-theorem count_body_eq_model (cl : List A → List (List A)) (hs : ClSane cl) (s : List A) (env : Env A) :
-    tfCall0 genTf cl "graphemeCountInString" [.str s] env = some (env, .num (cl s).length) := by
-  simp [tfCall0, callMethod, runFn, tfGraphemeCount, execB, execS, evalE, recvOf, getV, setV, copyBack, cxBase, E.isAbsent]
-  rw [clusterLoop cl hs (fun _ r i _ => [("p0", .str s), ("l0", r), ("l1", .num (-1)), ("l2", .num i)]) stepCount
-    (l := cl s) (c := .opaque) (next := [])]
-  · simp [walk_count, getV]
-  · intro c r i next; simp [getV]
-  · intro c r g rest i next hr
-    rcases hr with rfl | ⟨s', rfl, hcl⟩
-    · simp [stepCount, Continues, getV, setV]
-    · simp [stepCount, Continues, getV, setV, hcl]
-  · intro e; rfl
-  · exact Or.inr ⟨s, rfl, rfl⟩
-  · simp [envSize, vSize]; omega
-
-/-- `Reset` -/
-theorem reset_body_eq_model (cl : List A → List (List A)) (tf : TextFieldCl.TF A) :
-    callMethod (tfCx1 genTf cl) tfKeys tfReset [] (envOfTF tf) = some (envOfTF (TextFieldCl.reset tf), .opaque) := by
-  simp [callMethod, runFn, tfReset, execB, execS, evalE, recvOf, tfKeys, envOfTF, getV, setV,
-    copyBack, TextFieldCl.reset]
-
-/-- `CursorTo` -/
-theorem cursorTo_body_eq_model (cl : List A → List (List A)) (tf : TextFieldCl.TF A) (i : Nat) :
-    callMethod (tfCx1 genTf cl) tfKeys tfCursorTo [.num i] (envOfTF tf) =
-      some (envOfTF (TextFieldCl.cursorTo tf i).1, .cmd (TextFieldCl.cursorTo tf i).2) := by
-  obtain ⟨v, c, n⟩ := tf
-  by_cases h1 : n < i
-  · by_cases h2 : n = c
-    · subst h2
-      simp [callMethod, runFn, tfCursorTo, execB, execS, evalE, recvOf, tfKeys, envOfTF, getV, setV,
-        copyBack, TextFieldCl.cursorTo, cmpV_eq_nat, cmpV_gt_nat, cmpV_lt_nat, h1]
-    · simp [callMethod, runFn, tfCursorTo, execB, execS, evalE, recvOf, tfKeys, envOfTF, getV, setV,
-        copyBack, TextFieldCl.cursorTo, cmpV_eq_nat, cmpV_gt_nat, cmpV_lt_nat, h1, h2, Ne.symm h2]
-  · by_cases h2 : i = c
-    · subst h2
-      simp [callMethod, runFn, tfCursorTo, execB, execS, evalE, recvOf, tfKeys, envOfTF, getV, setV,
-        copyBack, TextFieldCl.cursorTo, cmpV_eq_nat, cmpV_gt_nat, cmpV_lt_nat, h1]
-    · simp [callMethod, runFn, tfCursorTo, execB, execS, evalE, recvOf, tfKeys, envOfTF, getV, setV,
-        copyBack, TextFieldCl.cursorTo, cmpV_eq_nat, cmpV_gt_nat, cmpV_lt_nat, h1, h2, Ne.symm h2]
-
-/-- The environment of the three deleting loops. -/
-abbrev mkDel (tf : TextFieldCl.TF A) : V A → V A → Int → List A → Env A := fun c r i next =>
-  [("tf.Value", .str tf.value), ("tf.cursor", .num tf.cursor), ("tf.n", .num tf.n), ("l0", c), ("l1", r), ("l2", .num (-1)),
-   ("l3", .num i), ("l4", .str next)]
-
-/-- `DeleteCharRightOfCursor` -/
-theorem deleteRight_body_eq_model (cl : List A → List (List A)) (hs : ClSane cl) (tf : TextFieldCl.TF A) :
-    callMethod (tfCx1 genTf cl) tfKeys tfDeleteCharRightOfCursor [] (envOfTF tf) =
-      some (envOfTF (TextFieldCl.deleteRight cl tf).1, .cmd (TextFieldCl.deleteRight cl tf).2) := by
-  obtain ⟨v, c, n⟩ := tf
-  by_cases h : n = c
-  · subst h
-    simp [callMethod, runFn, tfDeleteCharRightOfCursor, execB, execS, evalE, recvOf, tfKeys, envOfTF,
-      getV, setV, copyBack, TextFieldCl.deleteRight, cmpV_eq_nat]
-  · have hw := walk_right c (cl v) (.str []) (.str v) 0 []
-    simp at hw
-    simp [callMethod, runFn, tfDeleteCharRightOfCursor, execB, execS, evalE, recvOf, tfKeys, envOfTF,
-      getV, setV, copyBack, TextFieldCl.deleteRight, cmpV_eq_nat, h, Ne.symm h, E.isAbsent, tfCx1, doCall, evalArgs]
-    rw [clusterLoop cl hs (mkDel ⟨v, c, n⟩) (stepRight c) (l := cl v) (c := .str []) (r := .str v) (i := 0) (next := [])]
-    · simp [getV, setV, count_body_eq_model cl hs, TextFieldCl.count, hw]
-    · intro c r i next; simp [getV]
-    · intro c' r g rest i next hr
-      by_cases hi : i = c
-      · rcases hr with rfl | ⟨s', rfl, hcl⟩
-        · simp [stepRight, Continues, getV, setV, hi, cmpV, cmpI]
-        · simp [stepRight, Continues, getV, setV, hi, cmpV, cmpI, hcl]
-      · rcases hr with rfl | ⟨s', rfl, hcl⟩
-        · simp [stepRight, Continues, getV, setV, hi, cmpV, cmpI]
-        · simp [stepRight, Continues, getV, setV, hi, cmpV, cmpI, hcl]
-    · intro e; rfl
-    · exact Or.inr ⟨_, rfl, rfl⟩
-    · simp [envSize, vSize]; omega
-
-/-- `DeleteCharLeftOfCursor` -/
-theorem deleteLeft_body_eq_model (cl : List A → List (List A)) (hs : ClSane cl) (tf : TextFieldCl.TF A) :
-    callMethod (tfCx1 genTf cl) tfKeys tfDeleteCharLeftOfCursor [] (envOfTF tf) =
-      some (envOfTF (TextFieldCl.deleteLeft cl tf).1, .cmd (TextFieldCl.deleteLeft cl tf).2) := by
-  obtain ⟨v, c, n⟩ := tf
-  by_cases h : c = 0
-  · subst h
-    simp [callMethod, runFn, tfDeleteCharLeftOfCursor, execB, execS, evalE, recvOf, tfKeys, envOfTF,
-      getV, setV, copyBack, TextFieldCl.deleteLeft, cmpV, cmpI]
-  · have hw := walk_left c (cl v) (.str []) (.str v) 0 []
-    simp at hw
-    simp [callMethod, runFn, tfDeleteCharLeftOfCursor, execB, execS, evalE, recvOf, tfKeys, envOfTF,
-      getV, setV, copyBack, TextFieldCl.deleteLeft, cmpV_eq_nat0, h, E.isAbsent, tfCx1, doCall, evalArgs]
-    rw [clusterLoop cl hs (mkDel ⟨v, c, n⟩) (stepLeft c) (l := cl v) (c := .str []) (r := .str v) (i := 0) (next := [])]
-    · simp [getV, setV, count_body_eq_model cl hs, TextFieldCl.count, hw]
-      omega
-    · intro c r i next; simp [getV]
-    · intro c' r g rest i next hr
-      by_cases hi : i + 1 = c
-      · rcases hr with rfl | ⟨s', rfl, hcl⟩
-        · simp [stepLeft, Continues, getV, setV, hi, cmpV, cmpI]
-        · simp [stepLeft, Continues, getV, setV, hi, cmpV, cmpI, hcl]
-      · rcases hr with rfl | ⟨s', rfl, hcl⟩
-        · simp [stepLeft, Continues, getV, setV, hi, cmpV, cmpI]
-        · simp [stepLeft, Continues, getV, setV, hi, cmpV, cmpI, hcl]
-    · intro e; rfl
-    · exact Or.inr ⟨_, rfl, rfl⟩
-    · simp [envSize, vSize]; omega
-
-/-- `DeleteCursorToEndOfLine` -/
-theorem killToEnd_body_eq_model (cl : List A → List (List A)) (hs : ClSane cl) (tf : TextFieldCl.TF A) :
-    callMethod (tfCx1 genTf cl) tfKeys tfDeleteCursorToEndOfLine [] (envOfTF tf) =
-      some (envOfTF (TextFieldCl.killToEnd cl tf).1, .cmd (TextFieldCl.killToEnd cl tf).2) := by
-  obtain ⟨v, c, n⟩ := tf
-  by_cases h : c = n
-  · subst h
-    simp [callMethod, runFn, tfDeleteCursorToEndOfLine, execB, execS, evalE, recvOf, tfKeys, envOfTF,
-      getV, setV, copyBack, TextFieldCl.killToEnd, cmpV_eq_nat]
-  · have hw := walk_kill c (cl v) (.str []) (.str v) 0 []
-    simp at hw
-    simp [callMethod, runFn, tfDeleteCursorToEndOfLine, execB, execS, evalE, recvOf, tfKeys, envOfTF,
-      getV, setV, copyBack, TextFieldCl.killToEnd, cmpV_eq_nat, h, Ne.symm h, E.isAbsent, tfCx1, doCall, evalArgs]
-    rw [clusterLoop cl hs (mkDel ⟨v, c, n⟩) (stepKill c) (l := cl v) (c := .str []) (r := .str v) (i := 0) (next := [])]
-    · simp [getV, setV, count_body_eq_model cl hs, TextFieldCl.count, hw]
-    · intro c r i next; simp [getV]
-    · intro c' r g rest i next hr
-      by_cases hi : i = c
-      · rcases hr with rfl | ⟨s', rfl, hcl⟩
-        · simp [stepKill, Continues, getV, setV, hi, cmpV, cmpI]
-        · simp [stepKill, Continues, getV, setV, hi, cmpV, cmpI, hcl]
-      · rcases hr with rfl | ⟨s', rfl, hcl⟩
-        · simp [stepKill, Continues, getV, setV, hi, cmpV, cmpI]
-        · simp [stepKill, Continues, getV, setV, hi, cmpV, cmpI, hcl]
-    · intro e; rfl
-    · exact Or.inr ⟨_, rfl, rfl⟩
-    · simp [envSize, vSize]; omega
-
-/-- The environment of the loop of `insertStringAtCursor`. -/
-abbrev mkIns (v : List A) (n : Nat) (s : List A) : V A → V A → V A → Int → List A → Env A := fun cur c r i next =>
-  [("tf.Value", .str v), ("tf.cursor", cur), ("tf.n", .num n), ("p0", .str s), ("l0", c), ("l1", r), ("l2", .num (-1)),
-   ("l3", .num i), ("l4", .str next)]
-
-/-- `insertStringAtCursor` (the unexported helper: the loop, the cursor, the value; `tf.n` untouched) -/
-theorem insertLoop_body_eq_model (cl : List A → List (List A)) (hs : ClSane cl) (tf : TextFieldCl.TF A) (s : List A) :
-    tfCall1 genTf cl "insertStringAtCursor" [.str s]
-        [("tf.Value", .str tf.value), ("tf.cursor", .num tf.cursor), ("tf.n", .num tf.n), ("p0", .str s)] =
-      some ([("tf.Value", .str (TextFieldCl.insertString cl tf s).value), ("tf.cursor", .num (TextFieldCl.insertString cl tf s).cursor),
-             ("tf.n", .num tf.n), ("p0", .str s)], .opaque) := by
-  obtain ⟨v, c, n⟩ := tf
-  have hw := walkIns_model c s (cl v) (.str []) (.str v) 0 [] [] rfl
-  simp at hw
-  simp [tfCall1, callMethod, runFn, tfInsertLoop, execB, execS, evalE, recvOf, tfKeys, envOfTF,
-    getV, setV, copyBack, TextFieldCl.insertString, E.isAbsent, tfCx1, doCall, evalArgs]
-  rw [insertLoopSpec cl (mkIns v n s) c s (l := cl v) (c := .str []) (r := .str v) (i := 0) (next := [])]
-  · simp [getV, setV, TextFieldCl.count, hw]
-  · intro e; rfl
-  · intro c' r l i next hr
-    rcases hr with rfl | ⟨s', rfl, hcl⟩
-    · cases l with
-      | nil => simp [getV, setV, nonEmptyV, count_body_eq_model cl hs]
-      | cons g rest =>
-        by_cases hi : i < c
-        · simp [getV, setV, nonEmptyV, hi, cmpV, cmpI, Continues]
-        · simp [getV, setV, nonEmptyV, hi, cmpV, cmpI, count_body_eq_model cl hs]
-    · cases l with
-      | nil =>
-        have : s' = [] := by have := hs.flat s'; rw [hcl] at this; simpa using this.symm
-        subst this
-        simp [getV, setV, nonEmptyV, count_body_eq_model cl hs]
-      | cons g rest =>
-        have hne : s' ≠ [] := by intro h; subst h; rw [hs.nil] at hcl; cases hcl
-        have hfl : s' = g ++ rest.flatten := by have := hs.flat s'; rw [hcl] at this; simpa using this.symm
-        have he : s'.isEmpty = false := by cases s' with | nil => exact absurd rfl hne | cons a t => rfl
-        by_cases hi : i < c
-        · simp [getV, setV, nonEmptyV, hi, cmpV, cmpI, Continues, hcl, he]
-        · simp [getV, setV, nonEmptyV, hi, cmpV, cmpI, count_body_eq_model cl hs, he]
-          exact hfl
-  · intro e; rfl
-  · exact Or.inr ⟨_, rfl, rfl⟩
-  · simp [envSize, vSize]; omega
-
-theorem tfCall1_count (P : TfProg) (cl : List A → List (List A)) (args : List (V A)) (env : Env A) :
-    tfCall1 P cl "graphemeCountInString" args env = tfCall0 P cl "graphemeCountInString" args env := by
-  simp [tfCall1]
-
-/-- `InsertStringAtCursor` -/
-theorem insertString_body_eq_model (cl : List A → List (List A)) (hs : ClSane cl) (tf : TextFieldCl.TF A) (s : List A) :
-    callMethod (tfCx2 genTf cl) tfKeys tfInsertStringAtCursor [.str s] (envOfTF tf) =
-      some (envOfTF (TextFieldCl.insertString cl tf s), .cmd true) := by
-  simp [callMethod, runFn, tfInsertStringAtCursor, execB, execS, evalE, recvOf, tfKeys, envOfTF,
-    getV, setV, copyBack, E.isAbsent, tfCx2, doCall, evalArgs, insertLoop_body_eq_model cl hs, tfCall1_count,
-    count_body_eq_model cl hs]
-  simp [TextFieldCl.insertString, TextFieldCl.count]
-
-/-! ### the exported API and `HandleEvent` -/
-
-theorem recvOf_envOfTF (tf : TextFieldCl.TF A) : recvOf tfKeys (envOfTF tf) = envOfTF tf := by
-  simp [recvOf, tfKeys, envOfTF, getV]
-
-/-- A method call sees the receiver's three fields only, and writes only them back. -/
-theorem callMethod_frame (cx : Ctx A) (f : Fn) (args : List (V A)) (tf tf' : TextFieldCl.TF A) (r : V A) (env : Env A)
-    (h : callMethod cx tfKeys f args (envOfTF tf) = some (envOfTF tf', r))
-    (h1 : getV env "tf.Value" = .str tf.value) (h2 : getV env "tf.cursor" = .num tf.cursor) (h3 : getV env "tf.n" = .num tf.n) :
-    callMethod cx tfKeys f args env = some (copyBack tfKeys (envOfTF tf') env, r) := by
-  have henv : recvOf tfKeys env = envOfTF tf := by simp [recvOf, envOfTF, h1, h2, h3]
-  unfold callMethod at h ⊢
-  rw [recvOf_envOfTF] at h
-  rw [henv]
-  cases hr : runFn cx f (envOfTF tf) args with
-  | none => rw [hr] at h; cases h
-  | some p =>
-    obtain ⟨env', r'⟩ := p
-    rw [hr] at h
-    simp only [Option.some.injEq, Prod.mk.injEq] at h
-    obtain ⟨h1, rfl⟩ := h
-    simp [copyBack, tfKeys, envOfTF, setV] at h1
-    simp [copyBack, tfKeys, envOfTF, getV, h1]
-
-/-- How the model's callback log reads in the interpreter's log. -/
-def callName : TextFieldCl.Call A → String × List A
-  | .change v => ("change", v)
-  | .submit v => ("submit", v)
-
-/-- `checkChanged` (with the `OnChange` callback installed): the callback is called with the new
-    value iff the value differs from `pre`. -/
-theorem checkChanged_body_eq_model (cl : List A → List (List A)) (tf : TextFieldCl.TF A) (pre : List A) (cmd : Bool) (log : V A) :
-    (callMethod (tfCx3 genTf cl) tfKeysCb tfCheckChanged [.cmd cmd, .str pre]
-      (envOfTF tf ++ [("tf.OnChange", .opaque), ("tf.OnSubmit", .opaque), ("log", log)])).map (fun p => logOf (getV p.1 "log")) =
-      some (logOf log ++ (TextFieldCl.checkChanged pre tf).map callName) := by
-  by_cases h : tf.value = pre
-  · simp [callMethod, runFn, tfCheckChanged, execB, execS, evalE, recvOf, tfKeys, tfKeysCb, envOfTF, getV, setV, copyBack, cmpV, h,
-      TextFieldCl.checkChanged]
-  · simp [callMethod, runFn, tfCheckChanged, execB, execS, evalE, recvOf, tfKeys, tfKeysCb, envOfTF, getV, setV, copyBack, cmpV, h,
-      TextFieldCl.checkChanged, tfCx3, doCall, evalArgs, E.isAbsent, tfCall2, callback, logOf, callName]
-
-section handle
-variable (cl : List A → List (List A)) (hs : ClSane cl) (tf : TextFieldCl.TF A)
-
-/-- The frame lemma instantiated with the theorems of the API functions: conditional rewrite rules
-    for calls made from a larger environment. -/
-theorem frame_reset (env : Env A)
-    (h1 : getV env "tf.Value" = .str tf.value) (h2 : getV env "tf.cursor" = .num tf.cursor) (h3 : getV env "tf.n" = .num tf.n) :
-    callMethod (tfCx1 genTf cl) tfKeys tfReset [] env = some (copyBack tfKeys (envOfTF (TextFieldCl.reset tf)) env, .opaque) :=
-  callMethod_frame _ _ _ tf _ _ env (reset_body_eq_model cl tf) h1 h2 h3
-theorem frame_cursorTo (i : Nat) (env : Env A)
-    (h1 : getV env "tf.Value" = .str tf.value) (h2 : getV env "tf.cursor" = .num tf.cursor) (h3 : getV env "tf.n" = .num tf.n) :
-    callMethod (tfCx1 genTf cl) tfKeys tfCursorTo [.num i] env =
-      some (copyBack tfKeys (envOfTF (TextFieldCl.cursorTo tf i).1) env, .cmd (TextFieldCl.cursorTo tf i).2) :=
-  callMethod_frame _ _ _ tf _ _ env (cursorTo_body_eq_model cl tf i) h1 h2 h3
-include hs in
-theorem frame_delRight (env : Env A)
-    (h1 : getV env "tf.Value" = .str tf.value) (h2 : getV env "tf.cursor" = .num tf.cursor) (h3 : getV env "tf.n" = .num tf.n) :
-    callMethod (tfCx1 genTf cl) tfKeys tfDeleteCharRightOfCursor [] env =
-      some (copyBack tfKeys (envOfTF (TextFieldCl.deleteRight cl tf).1) env, .cmd (TextFieldCl.deleteRight cl tf).2) :=
-  callMethod_frame _ _ _ tf _ _ env (deleteRight_body_eq_model cl hs tf) h1 h2 h3
-include hs in
-theorem frame_delLeft (env : Env A)
-    (h1 : getV env "tf.Value" = .str tf.value) (h2 : getV env "tf.cursor" = .num tf.cursor) (h3 : getV env "tf.n" = .num tf.n) :
-    callMethod (tfCx1 genTf cl) tfKeys tfDeleteCharLeftOfCursor [] env =
-      some (copyBack tfKeys (envOfTF (TextFieldCl.deleteLeft cl tf).1) env, .cmd (TextFieldCl.deleteLeft cl tf).2) :=
-  callMethod_frame _ _ _ tf _ _ env (deleteLeft_body_eq_model cl hs tf) h1 h2 h3
-include hs in
-theorem frame_kill (env : Env A)
-    (h1 : getV env "tf.Value" = .str tf.value) (h2 : getV env "tf.cursor" = .num tf.cursor) (h3 : getV env "tf.n" = .num tf.n) :
-    callMethod (tfCx1 genTf cl) tfKeys tfDeleteCursorToEndOfLine [] env =
-      some (copyBack tfKeys (envOfTF (TextFieldCl.killToEnd cl tf).1) env, .cmd (TextFieldCl.killToEnd cl tf).2) :=
-  callMethod_frame _ _ _ tf _ _ env (killToEnd_body_eq_model cl hs tf) h1 h2 h3
-include hs in
-theorem frame_insert (s : List A) (env : Env A)
-    (h1 : getV env "tf.Value" = .str tf.value) (h2 : getV env "tf.cursor" = .num tf.cursor) (h3 : getV env "tf.n" = .num tf.n) :
-    callMethod (tfCx2 genTf cl) tfKeys tfInsertStringAtCursor [.str s] env =
-      some (copyBack tfKeys (envOfTF (TextFieldCl.insertString cl tf s)) env, .cmd true) :=
-  callMethod_frame _ _ _ tf _ _ env (insertString_body_eq_model cl hs tf s) h1 h2 h3
-
-end handle
-
-
-section handle2
-variable (cl : List A → List (List A)) (tf : TextFieldCl.TF A)
-
-theorem frame_cursorTo_zero (env : Env A)
-    (h1 : getV env "tf.Value" = .str tf.value) (h2 : getV env "tf.cursor" = .num tf.cursor) (h3 : getV env "tf.n" = .num tf.n) :
-    callMethod (tfCx1 genTf cl) tfKeys tfCursorTo [.num 0] env =
-      some (copyBack tfKeys (envOfTF (TextFieldCl.cursorTo tf 0).1) env, .cmd (TextFieldCl.cursorTo tf 0).2) :=
-  frame_cursorTo cl tf 0 env h1 h2 h3
-
-theorem frame_cursorTo_succ (env : Env A)
-    (h1 : getV env "tf.Value" = .str tf.value) (h2 : getV env "tf.cursor" = .num tf.cursor) (h3 : getV env "tf.n" = .num tf.n) :
-    callMethod (tfCx1 genTf cl) tfKeys tfCursorTo [.num ((tf.cursor : Int) + 1)] env =
-      some (copyBack tfKeys (envOfTF (TextFieldCl.cursorTo tf (tf.cursor + 1)).1) env, .cmd (TextFieldCl.cursorTo tf (tf.cursor + 1)).2) :=
-  frame_cursorTo cl tf (tf.cursor + 1) env h1 h2 h3
-
-theorem frame_cursorTo_pred (hc : tf.cursor ≠ 0) (env : Env A)
-    (h1 : getV env "tf.Value" = .str tf.value) (h2 : getV env "tf.cursor" = .num tf.cursor) (h3 : getV env "tf.n" = .num tf.n) :
-    callMethod (tfCx1 genTf cl) tfKeys tfCursorTo [.num ((tf.cursor : Int) - 1)] env =
-      some (copyBack tfKeys (envOfTF (TextFieldCl.cursorTo tf (tf.cursor - 1)).1) env, .cmd (TextFieldCl.cursorTo tf (tf.cursor - 1)).2) := by
-  have e : ((tf.cursor : Int) - 1) = ((tf.cursor - 1 : Nat) : Int) := by omega
-  rw [e]
-  exact frame_cursorTo cl tf (tf.cursor - 1) env h1 h2 h3
-
-end handle2
 
 /-- stage 1: run `HandleEvent` up to the calls of `checkChanged` -/
 macro "hk1" "[" ts:Lean.Parser.Tactic.simpLemma,* "]" : tactic =>
@@ -437,23 +130,6 @@ theorem handleEvent_body_eq_model (cl : List A → List (List A)) (hs : ClSane c
     · have hl : text.length > 0 := by cases text with | nil => exact absurd rfl ht | cons a t => simp
       rw [handle_text cl hs _ _ _ _ _ _ _ _ _ _ ht]; simp [TextFieldCl.handleKey, hl]
   · rw [handle_release]; simp [TextFieldCl.handleKey]
-
-/-- From the environment-level statement to the `TextField`-level API. -/
-theorem tfApi_of_call (cl : List A → List (List A)) (f : String) (args : List (V A)) (tf tf' : TextFieldCl.TF A) (r : V A)
-    (h : tfCall2 genTf cl f args (envOfTF tf) = some (envOfTF tf', r)) :
-    tfApi genTf cl f args tf = some (tf', r) := by
-  unfold tfApi
-  rw [h]
-  simp [tfOfEnv, envOfTF, getV]
-
-theorem clSane_of_seg (cl : List A → List (List A)) (h : VaxisModel.Spec.Editor.Segmentation cl) : ClSane cl where
-  nil := VaxisModel.Lemmas.EditorCl.cl_nil h
-  cons := by
-    intro s hs hc
-    have := h.flatten s
-    rw [hc] at this
-    exact hs (by simpa using this.symm)
-  flat := h.flatten
 
 /-! ### histories through the translated bodies -/
 
